@@ -708,7 +708,9 @@ fn generate(rng: &mut Rng) -> Scenario {
         let mut adds = Vec::new();
         for _ in 0..k {
             let s = *rng.pick(&slots);
-            let width = s.width;
+            // a slot is one u64 word or two u32 words; now and then the other view of it is added to
+            // as well (a 32-bit add on half of a u64 word, a 64-bit add across two u32 words)
+            let width = if rng.chance(1, 6) { 12 - s.width } else { s.width };
             let mut off = s.off + if width == 4 && rng.chance(1, 2) { 4 } else { 0 };
             if misaligned_enabled && engine == Engine::Interp && rng.chance(1, 4) {
                 let m = rng.range(1, width as u64 - 1) as u16;
@@ -1416,33 +1418,44 @@ fn check(sc: &Scenario, out: &RunOutput) -> Option<Violation> {
             }
         }
     }
-    // final contents: initial + sum of all addends carried out, per word
+    // final contents: the initial page with every add carried out in the order the writes happened
+    // (adds of different widths on one slot do not commute: a 32-bit add drops the carry that a
+    // 64-bit add propagates)
     let mut want = sc.init.clone();
+    let mut plans: Vec<(Vec<Add>, Vec<Option<u64>>, usize)> = Vec::new();
     for i in 0..n {
+        let (exp, _) = expected_writes(&sc.execs[i]);
+        let all_c: Vec<&Event> = out.conc.events.iter().filter(|e| e.thread as usize == i).collect();
+        let in_effect_c = addends_in_effect(&exp, &all_c);
+        plans.push((exp, in_effect_c, 0));
+    }
+    for e in out.conc.events.iter().filter(|e| is_write(e)) {
+        let i = e.thread as usize;
         if let Outcome::NotBuilt(_) = out.outs[i].build {
             continue;
         }
-        let (exp, _) = expected_writes(&sc.execs[i]);
-        let all_c: Vec<&Event> = out.conc.events.iter().filter(|e| e.thread as usize == i).collect();
-        let writes_c: Vec<&Event> = all_c.iter().copied().filter(|e| is_write(e)).collect();
-        let in_effect_c = addends_in_effect(&exp, &all_c);
-        for (j, a) in exp.iter().enumerate() {
-            let off = a.off as usize;
-            let w = a.width as usize;
-            let mut cur = 0u64;
-            for k in (0..w).rev() {
-                cur = (cur << 8) | want[off + k] as u64;
-            }
-            let addend = match (a.from_load, in_effect_c.get(j).copied().flatten()) {
-                (None, _) => a.addend,
-                (Some(_), Some(v)) => v,
-                // the load was not seen as an event of its own: take what the write did
-                (Some(_), None) => writes_c.get(j).map(|e| delta(e)).unwrap_or(a.addend),
-            };
-            let nv = cur.wrapping_add(addend) & mask(a.width);
-            for k in 0..w {
-                want[off + k] = (nv >> (8 * k)) as u8;
-            }
+        let (exp, in_effect_c, next) = &mut plans[i];
+        let j = *next;
+        *next += 1;
+        let a = match exp.get(j) {
+            Some(a) => a,
+            None => continue, // more writes than adds: reported above as xadd-count
+        };
+        let off = a.off as usize;
+        let w = a.width as usize;
+        let mut cur = 0u64;
+        for k in (0..w).rev() {
+            cur = (cur << 8) | want[off + k] as u64;
+        }
+        let addend = match (a.from_load, in_effect_c.get(j).copied().flatten()) {
+            (None, _) => a.addend,
+            (Some(_), Some(v)) => v,
+            // the load was not seen as an event of its own: take what the write did
+            (Some(_), None) => delta(e),
+        };
+        let nv = cur.wrapping_add(addend) & mask(a.width);
+        for k in 0..w {
+            want[off + k] = (nv >> (8 * k)) as u8;
         }
     }
     if want != out.conc.final_page {
